@@ -1,4 +1,5 @@
 import PV.Lemmas.UThread
+import PV.Lemmas.UThreadOwners
 /-!
 # C05 — threads: join / exit code, reference count, TLS destructors
 
@@ -23,6 +24,8 @@ Reading guide (property text → theorem)
 * `p_uthread_local_free` (repaired: deletes the native key, frees its block) → `local_free_releases_native_key`,
   `native_release_once`; source-shape obligations of the F10 repair → `proxy_checks_its_slot`.
 * creation handshake → `fields_written_before_start`.
+* references attributed to the threads that hold them (`PV.Model.UThreadOwners`) → `user_refs_are_held`,
+  `refcount_is_outstanding_references`, `per_thread_discipline_implies_pooled`, `no_use_after_free_per_thread`.
 -/
 namespace PV.UThread
 open PV.Generated.UThread
@@ -341,6 +344,38 @@ theorem tls_uses_published_key {s s' : State} (hr : Reach s) :
     exact ⟨n, hp, ((hk.kP k n hp).2.2 hwf).1, rfl⟩
 
 
+
+/-! ## references attributed to the threads that hold them -/
+
+/-- along histories in which every thread uses only its own references the pooled ghost counter of a
+    handle is the sum, over all threads, of the references each of them holds (the creator's included) -/
+theorem user_refs_are_held {g : GState} (hr : TReach g) (h : Nat) : (g.s.hdl h).userRefs = heldBy g h :=
+  hr.inv.2.oU h
+
+/-- … so `refcount_is_holders` reads literally: `ref_count` = number of outstanding references =
+    Σ over threads of the references they hold + the described thread's own one -/
+theorem refcount_is_outstanding_references {g : GState} (hr : TReach g) (h : Nat) (hf : (g.s.hdl h).freed = false) :
+    (g.s.hdl h).refCount = ((heldBy g h + (if (g.s.hdl h).threadRef then 1 else 0) : Nat) : Int) := by
+  have := refcount_is_holders hr.inv.1.reach h hf
+  rw [this, holders, user_refs_are_held hr h]
+
+/-- the per-thread discipline is a special case of the pooled one (which also allows handing a reference
+    from one thread to another) -/
+theorem per_thread_discipline_implies_pooled {g : GState} {e : Ev} (hr : TReach g) (hp : PermittedT g e) :
+    Permitted g.s e ∧ DReach g.s :=
+  ⟨hp.permitted hr.inv.2, hr.inv.1⟩
+
+/-- `no_use_after_free` for the per-thread discipline: when every thread uses only references it holds
+    itself, no event reads or writes a freed `PUThread` block -/
+theorem no_use_after_free_per_thread {g : GState} {e : Ev} (hr : TReach g) (hp : PermittedT g e) :
+    ∀ h, gstep g e ≠ .error (.useAfterFree h) := by
+  intro h hs
+  unfold gstep at hs
+  split at hs
+  · cases hs
+  · rename_i x hx; injection hs with hs; subst hs
+    exact no_use_after_free hr.inv.1 (hp.permitted hr.inv.2) h hx
+
 /-! ## `p_uthread_local_free` (repaired code) and the F10 repair -/
 
 /-- `p_uthread_local_free (k)` releases the wrapper and, if `k` ever got a native key, exactly that one:
@@ -453,5 +488,12 @@ example : (match run init [.localNew 0 true, .createBegin 0 true false, .createE
       .keyCreate 1 1, .keyCas 1 1, .setLocal 1 1 5, .localFree 0 1, .ret 1, .threadEnd 1] with
     | .ok s => some (s.dtorLog, s.keyDelLog, s.blockFreeLog, (s.nkey 1).live, (s.nkey 1).blockFreed)
     | .error _ => none) = some ([(1, 0, 1)], [1], [1], false, true) := by rfl
+
+/-- `demo` also obeys the per-thread discipline (the creator, thread 0, holds and gives up both user
+    references); in its final state nobody holds anything -/
+example : checkDiscT ginit demo = true := by rfl
+example : (match grun ginit (demo.take 11) with
+    | .ok g => some (g.owns 0 0, g.owns 0 1, g.owns 1 0, heldBy g 0, (g.s.hdl 0).refCount)
+    | .error _ => none) = some (1, 1, 0, 1, 2) := by rfl
 
 end PV.UThread
